@@ -234,6 +234,46 @@ pub fn exact_fit_texts() -> Vec<String> {
     v
 }
 
+/// Programs that use 38..=41 definitions (labels, .EQU names, mixed, with and without a repeated
+/// name) and refer to the first, a middle and the *last* defined name in every reference form.
+pub fn label_budget_texts() -> Vec<String> {
+    let mut v = vec![];
+    for n in [38usize, 39, 40, 41] {
+        for kind in 0..4 {
+            for dup in [false, true] {
+                for refs in 0..3 {
+                    let mut t = String::from("#! mrasm\n");
+                    let name = |k: usize| format!("N{}x", k);
+                    let targets = [0usize, n / 2, n - 1];
+                    let tgt = name(targets[refs]);
+                    // references first (forward), in several forms and another letter case
+                    t.push_str(&format!(" JMP {}\n LD R0, {}\n ST ({}), R1\n MOV ({}), {}\n CALL {}\n", tgt, tgt.to_lowercase(), tgt, tgt, tgt.to_lowercase(), tgt));
+                    for k in 0..n {
+                        let is_equ = match kind {
+                            0 => false,
+                            1 => true,
+                            2 => k % 2 == 0,
+                            _ => k == n - 1,
+                        };
+                        if is_equ {
+                            t.push_str(&format!(".EQU {} {}\n", name(k), (k * 3) % 256));
+                        } else {
+                            t.push_str(&format!("{}:\n NOP\n", name(k)));
+                        }
+                    }
+                    if dup {
+                        // one more definition line of an existing name with the same value semantics left open
+                        t.push_str(&format!("{}:\n", name(1).to_lowercase()));
+                    }
+                    t.push_str(&format!(" JR {}\n", tgt));
+                    v.push(t);
+                }
+            }
+        }
+    }
+    v
+}
+
 // ---------------------------------------------------------------------------------------------
 // C02
 
@@ -715,6 +755,22 @@ pub fn run(ctx: &Ctx, which: Which) -> Evidence {
             }
         }
         ev.class("enumerated:exact-fit-images", texts.len() as u64);
+    }
+    // ---- programs at the limit of 40 definitions, referring to the last defined name
+    {
+        let texts = label_budget_texts();
+        let res = par_chunks(ctx.threads, texts.len(), |k| match check_text(&texts[k], None) {
+            Verdict::Fail(s, d) => Some((s, d)),
+            Verdict::Pass => None,
+        });
+        for (k, r) in res.into_iter().enumerate() {
+            ev.evaluations += 1;
+            ev.nontrivial(&(0x40DEu32, k));
+            if let Some((s, d)) = r {
+                ev.violation("text", &s, d, json!({"text": texts[k], "class": "label-budget"}));
+            }
+        }
+        ev.class("enumerated:label-budget-38-41-definitions", texts.len() as u64);
     }
 
     // ---- generated parts
